@@ -342,6 +342,29 @@ class VerModel(object):
 class VerApp(KVApp):
     model = VerModel
 
+    def make_conf(self, world, host):
+        conf = KVApp.make_conf(self, world, host)
+        if self.cfg.get('version_callback'):
+            # the application reacts to the switch at once: its onCodeVersionChanged callback calls a versioned method
+            # (getCodeVersion() reports the new version there, so the call has to resolve to the new implementation)
+            idx = host.idx
+            app = self
+
+            def on_version(old, new):
+                w = CTX.world
+                if w is None:
+                    return
+                h = w.hosts[idx]
+                if h.doomed or h.node is None:
+                    return
+                n = h.extra.get('vcb_n', 0)
+                h.extra['vcb_n'] = n + 1
+                tag = 800000 + idx * 10000 + h.inc * 100 + n
+                w.probe('call_from_version_callback')
+                app.submit(w, h, ['op', tag])
+            conf.onCodeVersionChanged = on_version
+        return conf
+
     def make_node(self, world, host):
         vc = version_classes()
         code = host.extra.get('code', 'old')
@@ -584,6 +607,7 @@ class C17Spec(c01.C01Spec):
         s['w_upgrade'] = rng.choice([0.005, 0.02])
         s['w_setver'] = rng.choice([0.005, 0.02])
         s['w_compact'] = rng.choice([0.01, 0.04])
+        cfg['version_callback'] = rng.random() < 0.4
         return cfg
 
     def make_app(self, cfg):
